@@ -138,3 +138,62 @@ def to_real(x):
         fr = Fraction(repr(x))
         return to_real(fr)
     raise TypeError(f"cannot convert {type(x)} to z3 Real")
+
+
+# ---------------------------------------------------------------------------------------------------
+# parallel discharge (heavy QF_NRA obligations): each query travels as SMT-LIB text to a worker process
+def _worker(job):
+    idx, smt2, timeout_s = job
+    import time as _t
+    import z3 as _z3
+    t0 = _t.time()
+    try:
+        s = _z3.Solver()
+        s.set("timeout", int(timeout_s * 1000))
+        s.from_string(smt2)
+        r = s.check()
+        ans = "unsat" if r == _z3.unsat else ("sat" if r == _z3.sat else "unknown")
+        model = None
+        if r == _z3.sat:
+            try:
+                m = s.model()
+                model = {d.name(): str(m[d]) for d in m.decls()}
+            except Exception:
+                model = None
+        be = "z3-5.1(api,worker)"
+        if ans == "unknown":
+            for name, cmd in (("cvc5-1.0.3", ["/usr/bin/cvc5", f"--tlimit={int(timeout_s*1000)}"]), ("z3-4.8.12", ["/usr/bin/z3", f"-T:{int(timeout_s)}"])):
+                a2, dt = _run_cli(cmd, smt2, timeout_s)
+                if a2 in ("sat", "unsat"):
+                    ans, be = a2, name
+                    break
+        return idx, ans, be, _t.time() - t0, model
+    except Exception as e:  # pragma: no cover
+        return idx, "unknown", f"worker error {type(e).__name__}: {e}", _t.time() - t0, None
+
+
+def prove_many(queries, timeout_s=60.0, procs=None):
+    """queries: list of (hyps, goal).  Returns a list of Verdict in the same order, discharged in parallel."""
+    import multiprocessing as mp
+    jobs = []
+    for i, (hyps, goal) in enumerate(queries):
+        s = z3.Solver()
+        for h in hyps:
+            s.add(h)
+        s.add(z3.Not(goal))
+        jobs.append((i, s.to_smt2(), timeout_s))
+    if not jobs:
+        return []
+    procs = procs or min(16, max(1, (os.cpu_count() or 2)), len(jobs))
+    ctx = mp.get_context("fork")
+    with ctx.Pool(procs) as pool:
+        res = pool.map(_worker, jobs, chunksize=1)
+    out = [None] * len(jobs)
+    for idx, ans, be, secs, model in res:
+        if ans == "unsat":
+            out[idx] = Verdict(PROVED, be, secs)
+        elif ans == "sat":
+            out[idx] = Verdict(REFUTED, be, secs, model=model)
+        else:
+            out[idx] = Verdict(UNDECIDED, be, secs, detail="unknown/timeout")
+    return out
